@@ -14,6 +14,8 @@ import time
 import traceback
 
 ROOT = os.path.dirname(os.path.dirname(os.path.abspath(__file__)))
+# where evidence/ and replays/ are written: /verif unless VERIF_OUT redirects them (used when checks run against scratch mutants)
+OUTROOT = os.environ.get('VERIF_OUT') or ROOT
 OUT = sys.__stdout__
 NCPU = int(os.environ.get('VERIF_JOBS', '16'))
 
@@ -214,7 +216,7 @@ def run_check(prop, tier, seed):
     # unlisted known-hit keys become violations (a finding only counts when the file lists it)
     rc = 0
     nviol = 0
-    os.makedirs(os.path.join(ROOT, 'replays'), exist_ok=True)
+    os.makedirs(os.path.join(OUTROOT, 'replays'), exist_ok=True)
     for bucket in sorted(acc.viol):
         v = acc.viol[bucket]
         rec = {'property': prop, 'bucket': bucket, 'count': acc.viol_n[bucket], 'case': v['case'],
@@ -222,7 +224,7 @@ def run_check(prop, tier, seed):
                'verif_rev': git_rev(ROOT)}
         dig = hashlib.sha1(json.dumps(jsonable(rec['case']), sort_keys=True).encode() + bucket.encode()).hexdigest()[:10]
         path = os.path.join('replays', f'{prop}-{dig}.json')
-        with open(os.path.join(ROOT, path), 'w') as f:
+        with open(os.path.join(OUTROOT, path), 'w') as f:
             json.dump(jsonable(rec), f, indent=1, sort_keys=True)
         out(f'VIOLATION property={prop} replay={path}  # {bucket} x{acc.viol_n[bucket]}')
         rc = 1
@@ -249,8 +251,8 @@ def run_check(prop, tier, seed):
     ev = {'property_id': prop, 'tier': tier, 'seed': seed, 'level': 'exploration', 'coverage': cov,
           'assumptions': ctx.assumptions, 'wall_s': round(wall, 2), 'violations': nviol,
           'technique': ctx.technique}
-    os.makedirs(os.path.join(ROOT, 'evidence'), exist_ok=True)
-    with open(os.path.join(ROOT, 'evidence', prop + '.json'), 'w') as f:
+    os.makedirs(os.path.join(OUTROOT, 'evidence'), exist_ok=True)
+    with open(os.path.join(OUTROOT, 'evidence', prop + '.json'), 'w') as f:
         json.dump(ev, f, indent=1, sort_keys=True)
     out(f'{prop} {tier} seed={seed}: evaluations={acc.evals} distinct_nontrivial={len(acc.nontriv)} '
         f'violations={nviol} known_hits={sum(acc.known.values())} wall={wall:.1f}s')
